@@ -1,8 +1,8 @@
 """C10 — Concurrent updates of one tile never lose a contribution."""
 PROPERTY = "C10"
 LEVEL = "other"
-CONTRACT_MODULES = ["contracts.specfuns", "contracts.lemmas_desc", "contracts.pyramid", "contracts.image", "contracts.merge", "contracts.pyramidio", "contracts.pioinit"]
-FUNCTIONS = ["toasty.pyramid.PyramidIO.update_image", "toasty.pyramid.PyramidIO.__init__"]
+CONTRACT_MODULES = ['contracts.specfuns', 'contracts.lemmas_desc', 'contracts.pyramid', 'contracts.image', 'contracts.merge', 'contracts.pyramidio', 'contracts.pioinit', 'contracts.study', 'contracts.paths', 'contracts.parallel', 'contracts.multitan', 'contracts.toastsample', 'contracts.datarange', 'contracts.builderc', 'contracts.walk', 'contracts.reducer', 'contracts.lemmas_embed', 'contracts.generator', 'contracts.toastgeom', 'contracts.toastgen', 'contracts.multiwcs']
+FUNCTIONS = ['toasty.pyramid.PyramidIO.update_image', 'toasty.pyramid.PyramidIO.__init__', 'toasty.multi_tan._mp_tile_worker', 'toasty.multi_tan.MultiTanProcessor._tile_serial', 'toasty.toast.ToastSampler.visit_callback']
 LEMMAS = []
 SLOW = ()
 TRUSTED_BASE = ["pyvc VC generator; z3/cvc5",
